@@ -24,13 +24,14 @@ import Scico.Proofs.ProxNuclearDual
 import Scico.Proofs.ProxPhase
 import Scico.Proofs.ProxAxis
 import Scico.Proofs.ProxCG
+import Scico.Proofs.ProxEdge
 
 set_option linter.unusedSectionVars false
 
 namespace Scico.Props.C02
 
 open Scico Scico.Prox Scico.ProxSpec Scico.ProxBridge Scico.ProxConvex Scico.ProxGroup Scico.ProxSep
-  Scico.ProxNonconvex Scico.ProxL1L2 Scico.ProxCubic Scico.ProxNuclear Scico.ProxPhase Scico.ProxAxis Scico.ProxCG WithLp
+  Scico.ProxNonconvex Scico.ProxL1L2 Scico.ProxCubic Scico.ProxNuclear Scico.ProxPhase Scico.ProxAxis Scico.ProxCG Scico.ProxEdge WithLp
 
 /-! ## generic theorems (any real inner-product space: ℝⁿ, ℂⁿ with `Re⟨·,·⟩`, block arrays) -/
 
@@ -639,6 +640,42 @@ theorem C02_block_l21 {lam : ℝ} (hlam : 0 < lam) (v : PiLp 2 (fun b : Fin B =>
 
 end PhaseBlock
 
+/-! ## parameter edge cases: what the code does outside the documented parameter range, and whether it still minimises -/
+
+section Edge
+variable {n : ℕ}
+
+/-- `L2BallIndicator(radius=0)`: for `v ≠ 0` the code returns `0`, the projection onto `{0}` (at `v = 0`: `0/0`, NaN) -/
+theorem C02_l2ball_zero_radius {lam : ℝ} (v : Fin n → ℝ) (hv : toE v ≠ 0) :
+    Cert {x : EuclideanSpace ℝ (Fin n) | ‖x‖ ≤ 0} (fun _ => 0) lam (toE v) (toE (l2ballProx 0 v)) :=
+  cert_ball_zero_radius v hv
+
+/-- `L2BallIndicator(radius<0)`: the domain is empty — nothing can be a minimiser — and the code returns a point of norm `-radius` -/
+theorem C02_l2ball_negative_radius {rad : ℝ} (hr : rad < 0) (v : Fin n → ℝ) (hv : toE v ≠ 0) :
+    {x : EuclideanSpace ℝ (Fin n) | ‖x‖ ≤ rad} = ∅ ∧ ‖toE (l2ballProx rad v)‖ = -rad := ball_negative_radius hr v hv
+
+/-- `HuberNorm(delta<0, separable=False)`, `v ≠ 0`: the functional is concave in `‖x‖` but the objective is still minimised by the
+    code's formula (`v` pushed outwards by `-delta·lam`) -/
+theorem C02_huber_nonsep_negative_delta {lam delta : ℝ} (hlam : 0 < lam) (hd : delta < 0) (v : Fin n → ℝ) (hv : toE v ≠ 0) :
+    IsGMin Set.univ (fun x : EuclideanSpace ℝ (Fin n) => huberFn delta ‖x‖) lam (toE v) (toE (huberNonsepProx delta v lam)) :=
+  min_huber_negative_delta hlam hd v hv
+
+/-- `SquaredL2Loss` (diagonal `A`) with ANY sign of `scale` and of the weights: the formula is the global minimiser as long as every
+    denominator `1 + 2·scale·lam·w_i·a_i²` is positive (no convexity of the loss itself is needed) -/
+theorem C02_sqL2loss_diag_anyscale {lam scale : ℝ} (w a y v : Fin n → ℝ)
+    (hden : ∀ i, 0 < 2 * scale * lam * a i * w i * a i + 1) :
+    IsGMin Set.univ (fun x : EuclideanSpace ℝ (Fin n) => ∑ i, scale * (w i * (y i - a i * x i) ^ 2)) lam (toE v)
+      (toE (sqL2LossDiagProx scale w a y v lam)) := min_sqL2loss_diag_anyscale w a y v hden
+
+/-- with a negative denominator it is not (witness `scale = -1`, `w = a = lam = 1`, `y = v = 0`: returns `0`, but `x = 1` has objective `-½`) -/
+theorem C02_sqL2loss_diag_negscale_not_min :
+    ¬ IsGMin Set.univ (fun x : EuclideanSpace ℝ (Fin 1) => ∑ i, (-1 : ℝ) * ((fun _ => (1 : ℝ)) i * ((fun _ => (0 : ℝ)) i - (fun _ => (1 : ℝ)) i * x i) ^ 2))
+        1 (toE (fun _ : Fin 1 => (0 : ℝ)))
+        (toE (sqL2LossDiagProx (-1) (fun _ : Fin 1 => (1 : ℝ)) (fun _ => 1) (fun _ => 0) (fun _ => 0) 1)) :=
+  sqL2loss_diag_negscale_not_min
+
+end Edge
+
 /-! ## the flags: a prox is advertised only where the theorems above apply -/
 
 section Guards
@@ -752,6 +789,8 @@ example : ∀ j, sqL2LossSysResidual (1 / 2 : ℝ) (fun _ : Fin 1 => 1) (fun _ _
   intro j
   simp only [sqL2LossSysResidual, matTVec, matVec, vsum_eq, Fin.sum_univ_one, Fin.sum_univ_two]
   norm_num
+-- the denominator hypothesis of C02_sqL2loss_diag_anyscale with a NEGATIVE scale: scale = -1/4, lam = w = a = 1 gives 1/2 > 0
+example : (0 : ℝ) < 2 * (-1 / 4) * 1 * 1 * 1 * 1 + 1 := by norm_num
 end Examples
 
 end Scico.Props.C02
